@@ -316,6 +316,12 @@ func (c *UDPConn) Close() error {
 	} else {
 		c.w.udp[c.key] = ds
 	}
+	if c.owner == OwnerProxy {
+		if c.w.udpClosed == nil {
+			c.w.udpClosed = map[uint16]time.Duration{}
+		}
+		c.w.udpClosed[c.local.Port()] = c.w.S.Now()
+	}
 	c.w.mu.Unlock()
 	c.w.logf("uclose", "%s", c.key)
 	return nil
@@ -397,3 +403,12 @@ func (c *UDPConn) ID() int { return c.id }
 // RandProbe, when set, is logged at every datagram send (debugging aid for
 // determinism: exposes the position of the runtime's random stream).
 var RandProbe func() uint64
+
+// ProxyUDPClosedAt is when the proxy closed its datagram socket bound to
+// the given local port (simulator knowledge, for oracles).
+func (w *World) ProxyUDPClosedAt(port int) (time.Duration, bool) {
+	w.mu.Lock()
+	defer w.mu.Unlock()
+	t, ok := w.udpClosed[uint16(port)]
+	return t, ok
+}
